@@ -414,6 +414,37 @@ static void run_pool_reuse(void)
             th[i] = ABT_THREAD_NULL;
             ABT_OK(ABT_thread_create(PR.P, pr_unit, (void *)(long)i, ABT_THREAD_ATTR_NULL, plan_bool() ? &th[i] : NULL));
         }
+        if (plan_n(3) == 0) {
+            /* the pool's stream is cancelled while units are blocked, joined and freed: the pool
+             * has no scheduler for a while.  Its next stream inherits the blocked units: the join
+             * of that stream waits for them */
+            int nb = 0;
+            for (int i = 0; i < PR.n; i++)
+                nb += PR.blocks[i];
+            for (;;) {
+                size_t tot = 0, sz = 1;
+                int others_done = 1;
+                for (int i = 0; i < PR.n; i++)
+                    if (!PR.blocks[i] && !PR.done[i])
+                        others_done = 0;
+                ABT_OK(ABT_pool_get_total_size(PR.P, &tot));
+                ABT_OK(ABT_pool_get_size(PR.P, &sz));
+                if (others_done && sz == 0 && tot == (size_t)nb)
+                    break;
+                ABT_OK(ABT_thread_yield());
+            }
+            ABT_OK(ABT_xstream_cancel(xs));
+            ABT_OK(ABT_xstream_join(xs));
+            ABT_OK(ABT_xstream_free(&xs));
+            size_t tot = 99;
+            ABT_OK(ABT_pool_get_total_size(PR.P, &tot));
+            SIM_CHECK(tot == (size_t)nb, "pool:total-size", "round %d: ABT_pool_get_total_size = %zu with %d units blocked and no stream", r, tot, nb);
+            ABT_OK(ABT_xstream_create_basic(sk[plan_n(4)], 1, &PR.P, ABT_SCHED_CONFIG_NULL, &xs));
+            ABT_OK(ABT_pool_get_total_size(PR.P, &tot));
+            SIM_CHECK(tot == (size_t)nb, "pool:total-size", "round %d: ABT_pool_get_total_size = %zu with %d units blocked, right after the pool got a new stream", r, tot, nb);
+            sim_count("c06.pool_reuse_blocked_units_inherited", (uint64_t)nb);
+            sim_note("inherit%d ", nb);
+        }
         PR.join_issued = 1;
         ABT_OK(ABT_xstream_join(xs));
         for (int i = 0; i < PR.n; i++)
